@@ -904,9 +904,13 @@ def concrete_queries(n, times, gqs, wqs):
             out_g.append(("ind", tuple(s)))
     out_w = []
     for inc, exc, order, reverse, maxe, filt, v in wqs:
-        q = dict(include=list(dict.fromkeys(_tipward(n, x) for x in inc)), order=order, reverse=reverse, max_entries=maxe)
-        ex = [x % n for x in exc]
-        ex = [x for x in dict.fromkeys(ex)]
+        if v % 3 == 0 and exc:
+            # start somewhere in the history, exclude from the tips: (part of) the walk lies *below* the excluded tips
+            q = dict(include=list(dict.fromkeys((x >> 1) % n for x in inc)), order=order, reverse=reverse, max_entries=maxe)
+            ex = list(dict.fromkeys(_tipward(n, x | 1) for x in exc))
+        else:
+            q = dict(include=list(dict.fromkeys(_tipward(n, x) for x in inc)), order=order, reverse=reverse, max_entries=maxe)
+            ex = list(dict.fromkeys(x % n for x in exc))
         if ex:
             q["exclude"] = ex
         tv = times[v % n]
